@@ -120,11 +120,34 @@ def _establish(U):
     return roles
 
 
+def _replay_update_frame(m):
+    """merge_attributes on / off x an update_attributes dict with one / several ID values: the dict is unchanged afterwards and
+    editing one yielded feature changes neither the dict nor the other features"""
+    import gffutils
+    mk = lambda i, a, b: F.Feature(seqid="c", source="s", featuretype="exon", start=a, end=b, strand="+", attributes={"ID": ["e%d" % i]})
+    db = gffutils.create_db([mk(1, 1, 10), mk(2, 20, 30), mk(3, 40, 50)], ":memory:")
+    last = None
+    for ma in (False, True):
+        for upd in ({"Note": ["n"]}, {"ID": ["a", "b"], "Note": ["n"]}):
+            before = {k: list(v) for k, v in upd.items()}
+            out = list(db.interfeatures(db.all_features(order_by="start"), merge_attributes=ma, update_attributes=upd))
+            after_call = {k: list(v) for k, v in upd.items()}
+            out[0].attributes["Note"] = ["edited"]
+            out[0].attributes["mine"] = ["x"]
+            obs = {"update_attributes after the call": after_call, "after editing the first interfeature": {k: list(v) for k, v in upd.items()},
+                   "second interfeature Note": list(out[1].attributes["Note"]), "second has key 'mine'": "mine" in out[1].attributes}
+            exp = {"update_attributes after the call": before, "after editing the first interfeature": before, "second interfeature Note": ["n"], "second has key 'mine'": False}
+            last = {"inputs": {"merge_attributes": ma, "update_attributes": before}, "expected": exp, "observed": obs, "violates": obs != exp}
+            if last["violates"]:
+                return last
+    return last
+
+
 def unit_body(U):
     """fold rule on the loop body of interfeatures"""
     roles = _establish(U)
     for nft, ma, upd, ids in itertools.product(("none", "given"), (True, False), (None, {"extra": ["1"]}), (0, 1, 2)):
-        if not U.thorough and ((upd is not None and (not ma or ids != 1)) or (not ma and ids != 1)):
+        if not U.thorough and ((upd is not None and ids != 1) or (not ma and ids != 1)):
             continue
         it = Interp()
         it.contracts[B.bins] = bins_contract
@@ -132,6 +155,9 @@ def unit_body(U):
         merged_ids = []
 
         def run(ctx, nft=nft, ma=ma, upd=upd, ids=ids):
+            upd = None if upd is None else {k: list(v) for k, v in upd.items()}       # the caller's own dict, fresh for every path
+            ctx.stash["upd"] = upd
+            ctx.stash["upd_before"] = None if upd is None else {k: (v, list(v)) for k, v in upd.items()}
             last, f = sfeat("last"), sfeat("f")
             merged = {"Name": [SStr([Val(z3.String("m.Name"))])]}
             if ids:
@@ -218,6 +244,14 @@ def unit_body(U):
             # frame
             bad = [w for w in p.ctx.writes if w[0] is last or w[0] is f or w[0] is last.attributes or w[0] is f.attributes or w[0] is last.attributes._d or w[0] is f.attributes._d]
             U.prove(base + ".frame#p%d" % p.index, "no input feature (or its attributes) is written; no SQL statement is issued", [], z3.BoolVal(not bad and not ghostdb.executes(p.ctx)), vars_, replay=battery_replay)
+            u, ub = st.get("upd"), st.get("upd_before")
+            if u is not None:
+                # the caller's update_attributes dict is an INPUT: same keys, the same value lists with the same content afterwards,
+                # and no yielded feature uses that very dict as its attribute mapping (or every later edit of one would show in all)
+                same_u = list(u.keys()) == list(ub.keys()) and all(u[k] is ub[k][0] and list(u[k]) == ub[k][1] for k in ub)
+                shared = [g for g in ys if g.attributes is u or getattr(g.attributes, "_d", None) is u]
+                U.prove(base + ".update_attributes_frame#p%d" % p.index, "update_attributes is left as it was given and is not itself the attribute mapping of a yielded feature", [],
+                        z3.BoolVal(bool(same_u and not shared)), vars_, replay=_replay_update_frame)
 
 
 def unit_introns(U):
